@@ -532,7 +532,8 @@ func writeTableHashes(ctx context.Context, head doltdb.RootValue, tblHashes map[
 
 	var toDrop []doltdb.TableName
 	for _, name := range names {
-		if _, ok := tblHashes[name]; !ok {
+		// an empty hash means the table was dropped in the root being carried over
+		if h, ok := tblHashes[name]; !ok || h == emptyHash {
 			toDrop = append(toDrop, name)
 		}
 	}
